@@ -32,9 +32,11 @@ type monitors struct {
 	multiTarget     int
 	setChecks       int
 	setChanges      int
+
+	c11 *c11state
 }
 
-func newMonitors(n *node) *monitors { return &monitors{n: n, cs: n.cs, w: n.w} }
+func newMonitors(n *node) *monitors { return &monitors{n: n, cs: n.cs, w: n.w, c11: newC11()} }
 
 // verifyCached is verifySparse with a per-case cache.
 func (mo *monitors) verifyCached(set *vset, kind string, h uint64, r uint32, hash string, ss gcrypto.SparseSignature) (int, bool) {
@@ -408,6 +410,7 @@ func (mo *monitors) afterStep() bool {
 	for _, ev := range evs {
 		mo.judgeCommit(ev)
 	}
+	mo.c11consume(gossip, sm)
 	if !ok {
 		return false
 	}
@@ -479,6 +482,12 @@ func (mo *monitors) afterStep() bool {
 		views = append(views, lv{u.Voting, "gossip.voting"}, lv{u.Committing, "gossip.committing"}, lv{u.NextRound, "gossip.nextround"}, lv{u.NilVotedRound, "gossip.nilvoted"})
 	}
 	for i := range sm {
+		if e := sm[i].entrance; e != nil {
+			if e.resp.IsVRV() {
+				views = append(views, lv{&e.resp.VRV, "statemachine.entrance"})
+			}
+			continue
+		}
 		v := &sm[i].v
 		if v.VRV.Height > 0 {
 			views = append(views, lv{&v.VRV, "statemachine.view"})
